@@ -425,20 +425,53 @@ def _enum_small():
     return cases
 
 
+def _enum_loops():
+    """exhaustive small scope for hand-built loops: every ordered tree with <= 3 nodes, rep in {1,2,3}, one window or
+    none on every node, two leaf durations"""
+    import itertools
+    shapes = [[], [[]], [[], []], [[[]]]]
+
+    def nodes(sh):
+        return 1 + sum(nodes(c) for c in sh)
+
+    def build(sh, it):
+        rep, w, d = next(it)
+        ch = [build(c, it) for c in sh]
+        return {'rep': rep, 'wf': None if ch else d, 'ms': [['m0', '1/2', '1']] if w else [], 'ch': ch}
+    out = []
+    for sh in shapes:
+        n = nodes(sh)
+        for combo in itertools.product(itertools.product([1, 2, 3], [0, 1], ['1', '3/2']), repeat=n):
+            # the duration choice of inner nodes is irrelevant: keep one representative
+            j = build(sh, iter(combo))
+            out.append(j)
+    seen, uniq = set(), []
+    for j in out:
+        key = json.dumps(j, sort_keys=True)
+        if key not in seen:
+            seen.add(key)
+            uniq.append({'kind': 'loop', 'loop': j})
+    return uniq
+
+
 def gen_cases(rng, tier, ctx):
     g = G(rng)
     cases = []
-    n_prog, n_loop = (700, 250) if tier == 'quick' else (7000, 2000)
+    n_prog, n_loop = (700, 250) if tier == 'quick' else (20000, 5000)
     for i in range(n_prog):
-        cases.append(g.prog_case(rng.choice([1, 2, 2, 3, 3, 4])))
+        cases.append(g.prog_case(rng.choice([1, 2, 2, 3, 3, 4] if tier == 'quick' else [1, 2, 2, 3, 3, 4, 4, 5])))
     for i in range(n_loop):
         cases.append(g.loop_case(rng.choice([1, 2, 3])))
     if tier == 'thorough':
         cases.extend(_enum_small())
+        cases.extend(_enum_loops())
     else:
         small = _enum_small()
         rng.shuffle(small)
         cases.extend(small[:150])
+        loops = _enum_loops()
+        rng.shuffle(loops)
+        cases.extend(loops[:100])
     return cases
 
 
